@@ -497,6 +497,10 @@ func writeEvidence(prop, tier string, seed int, meta Meta, hrs []*HarnessResult,
 		},
 	}
 	data, _ := json.MarshalIndent(ev, "", " ")
-	os.MkdirAll(filepath.Join(verifDir(), "evidence"), 0o755)
-	os.WriteFile(filepath.Join(verifDir(), "evidence", prop+".json"), data, 0o644)
+	evDir := filepath.Join(verifDir(), "evidence")
+	if os.Getenv("VERIF_REPO") != "" {
+		evDir = filepath.Join(os.TempDir(), "verif-scratch-evidence")
+	}
+	os.MkdirAll(evDir, 0o755)
+	os.WriteFile(filepath.Join(evDir, prop+".json"), data, 0o644)
 }
